@@ -39,33 +39,33 @@
 ; ---- strings ---------------------------------------------------------------
 (declare-fun sbyte (Int Int) Int)                 ; byte of base at absolute offset
 (declare-fun blen (Int) Int)                      ; length of a base
-(define-fun str.len ((s Str)) Int (- (shi s) (slo s)))
-(define-fun str.at ((s Str) (i Int)) Int (sbyte (sbase s) (+ (slo s) i)))
-(define-fun str.sub ((s Str) (i Int) (j Int)) Str (mkstr (sbase s) (+ (slo s) i) (+ (slo s) j)))
-(define-fun str.wf ((s Str)) Bool (and (<= 0 (slo s)) (<= (slo s) (shi s)) (<= (shi s) (blen (sbase s))) (<= (blen (sbase s)) MaxInt)))
-; @section bytes sbyte str.at blen str.wf str.len
+(define-fun gs.len ((s Str)) Int (- (shi s) (slo s)))
+(define-fun gs.at ((s Str) (i Int)) Int (sbyte (sbase s) (+ (slo s) i)))
+(define-fun gs.sub ((s Str) (i Int) (j Int)) Str (mkstr (sbase s) (+ (slo s) i) (+ (slo s) j)))
+(define-fun gs.wf ((s Str)) Bool (and (<= 0 (slo s)) (<= (slo s) (shi s)) (<= (shi s) (blen (sbase s))) (<= (blen (sbase s)) 281474976710656)))
+; @section bytes sbyte gs.at blen gs.wf gs.len
 (assert (forall ((b Int) (i Int)) (! (and (<= 0 (sbyte b i)) (<= (sbyte b i) 255)) :pattern ((sbyte b i)))))
 (assert (forall ((b Int)) (! (and (<= 0 (blen b)) (<= (blen b) MaxInt)) :pattern ((blen b)))))
 ; @section core
 (define-fun emptystr () Str (mkstr 0 0 0))
 ; @section bytes
 (assert (= (blen 0) 0))
-; @section skey skey str.eq str.lt klt
+; @section skey skey gs.eq gs.lt klt
 ; content identity: equal keys <=> equal contents (only the directions listed are axiomatised)
 (declare-fun skey (Str) Int)
 (declare-fun klen (Int) Int)
 (declare-fun kbyte (Int Int) Int)
-(assert (forall ((s Str)) (! (= (klen (skey s)) (str.len s)) :pattern ((skey s)))))
-(assert (forall ((s Str) (i Int)) (! (=> (and (<= 0 i) (< i (str.len s))) (= (kbyte (skey s) i) (str.at s i))) :pattern ((kbyte (skey s) i)))))
-(define-fun str.eq ((a Str) (b Str)) Bool (= (skey a) (skey b)))
+(assert (forall ((s Str)) (! (= (klen (skey s)) (gs.len s)) :pattern ((skey s)))))
+(assert (forall ((s Str) (i Int)) (! (=> (and (<= 0 i) (< i (gs.len s))) (= (kbyte (skey s) i) (gs.at s i))) :pattern ((kbyte (skey s) i)))))
+(define-fun gs.eq ((a Str) (b Str)) Bool (= (skey a) (skey b)))
 (declare-fun klt (Int Int) Bool)                  ; byte-wise order on contents
-(define-fun str.lt ((a Str) (b Str)) Bool (klt (skey a) (skey b)))
+(define-fun gs.lt ((a Str) (b Str)) Bool (klt (skey a) (skey b)))
 (assert (forall ((a Int)) (! (not (klt a a)) :pattern ((klt a a)))))
 (assert (forall ((a Int) (b Int)) (! (=> (klt a b) (not (klt b a))) :pattern ((klt a b)))))
 (assert (forall ((a Int) (b Int)) (! (or (klt a b) (klt b a) (= a b)) :pattern ((klt a b)))))
 (assert (forall ((a Int) (b Int) (c Int)) (! (=> (and (klt a b) (klt b c)) (klt a c)) :pattern ((klt a b) (klt b c)))))
-(assert (forall ((s Str)) (! (=> (= (str.len s) 0) (= (skey s) (skey emptystr))) :pattern ((skey s)))))
-; @section runes nr roff ridx isbound str.aligned str.runes runit decode.post
+(assert (forall ((s Str)) (! (=> (= (gs.len s) 0) (= (skey s) (skey emptystr))) :pattern ((skey s)))))
+; @section runes nr roff ridx isbound gs.aligned gs.runes runit decode.post
 ; ghost rune table of a base: nr units, roff(k) byte offset of unit k, ridx inverse on boundaries
 (declare-fun nr (Int) Int)
 (declare-fun roff (Int Int) Int)
@@ -78,8 +78,8 @@
 ; ridx is monotone, total on 0..blen, and counts the units that start before an offset
 (assert (forall ((b Int) (o Int)) (! (=> (and (<= 0 o) (<= o (blen b))) (and (<= 0 (ridx b o)) (<= (ridx b o) (nr b)) (<= (ridx b o) o))) :pattern ((ridx b o)))))
 (define-fun isbound ((b Int) (o Int)) Bool (and (<= 0 o) (<= o (blen b)) (= (roff b (ridx b o)) o)))
-(define-fun str.aligned ((s Str)) Bool (and (isbound (sbase s) (slo s)) (isbound (sbase s) (shi s))))
-(define-fun str.runes ((s Str)) Int (- (ridx (sbase s) (shi s)) (ridx (sbase s) (slo s))))
+(define-fun gs.aligned ((s Str)) Bool (and (isbound (sbase s) (slo s)) (isbound (sbase s) (shi s))))
+(define-fun gs.runes ((s Str)) Int (- (ridx (sbase s) (shi s)) (ridx (sbase s) (slo s))))
 ; unit value (rune) at unit index
 (declare-fun runit (Int Int) Int)
 (assert (forall ((b Int) (k Int)) (! (and (<= 0 (runit b k)) (<= (runit b k) 1114111)) :pattern ((runit b k)))))
@@ -100,10 +100,10 @@
 (define-fun kind.lo ((k Int)) Int (ite (= k 1) (- 128) (ite (= k 2) (- 32768) (ite (= k 3) (- 2147483648) (ite (or (= k 4) (= k 5)) MinInt 0)))))
 (define-fun kind.hi ((k Int)) Int (ite (= k 1) 127 (ite (= k 2) 32767 (ite (= k 3) 2147483647 (ite (or (= k 4) (= k 5)) MaxInt
    (ite (= k 6) 255 (ite (= k 7) 65535 (ite (= k 8) 4294967295 18446744073709551615))))))))
-(define-fun slice.wf ((s Slice)) Bool (and (<= 0 (slen s)) (<= (slen s) (scap s)) (<= (scap s) MaxInt) (<= 0 (soff s)) (>= (sref s) 0) (=> (= (sref s) 0) (= (scap s) 0))))
+(define-fun slice.wf ((s Slice)) Bool (and (<= 0 (slen s)) (<= (slen s) (scap s)) (<= (scap s) 281474976710656) (<= 0 (soff s)) (>= (sref s) 0) (=> (= (sref s) 0) (= (scap s) 0))))
 (define-fun val.wf ((v Val)) Bool (and
-  (=> ((_ is VStr) v) (and (str.wf (vstr v)) (str.aligned (vstr v))))
-  (=> ((_ is VJNum) v) (str.wf (vjnum v)))
+  (=> ((_ is VStr) v) (and (gs.wf (vstr v)) (gs.aligned (vstr v))))
+  (=> ((_ is VJNum) v) (gs.wf (vjnum v)))
   (=> ((_ is VArr) v) (slice.wf (varr v)))
   (=> ((_ is VObj) v) (>= (vobj v) 0))
   (=> ((_ is VInt) v) (and (<= 1 (vkind v)) (<= (vkind v) 10) (<= (kind.lo (vkind v)) (vint v)) (<= (vint v) (kind.hi (vkind v)))))
@@ -119,8 +119,8 @@
   (ite ((_ is VF64) v) 11 (ite ((_ is VF32) v) 12 (ite ((_ is VDec) v) 13 (ite ((_ is VJNum) v) 14
   (ite ((_ is VArr) v) 17 (ite ((_ is VObj) v) 18 (votype v))))))))))))
 ; ---- misc functions used by the translator ---------------------------------
-(declare-fun str.concat (Str Str) Str)
-(declare-fun str.ofbytes ((Array Int Int) Int Int) Str)
+(declare-fun gs.concat (Str Str) Str)
+(declare-fun gs.ofbytes ((Array Int Int) Int Int) Str)
 (declare-fun val.ifaceeq (Val Val) Bool)
 ; @section ifaceeq val.ifaceeq
 (assert (forall ((a Val)) (! (=> (not ((_ is VArr) a)) (val.ifaceeq a a)) :pattern ((val.ifaceeq a a)))))
@@ -135,17 +135,17 @@
 (declare-fun f64.inintrange (F64 Int Int) Bool)
 (declare-fun f32.add (F32 F32) F32) (declare-fun f32.sub (F32 F32) F32) (declare-fun f32.mul (F32 F32) F32) (declare-fun f32.div (F32 F32) F32)
 (declare-fun f32.neg (F32) F32) (declare-fun f32.eq (F32 F32) Bool) (declare-fun f32.lt (F32 F32) Bool) (declare-fun f32.le (F32 F32) Bool)
-(declare-fun f32.ofint (Int) F32) (declare-fun f32.toint (F32) Int) (declare-fun f32.inintrange (F32 Int Int) Bool)
+(declare-fun f32.isnan (F32) Bool) (declare-fun f32.ofint (Int) F32) (declare-fun f32.toint (F32) Int) (declare-fun f32.inintrange (F32 Int Int) Bool)
 (declare-fun f64.isnan (F64) Bool) (declare-fun f64.isinf (F64) Bool) (declare-fun f64.floor (F64) F64)
 (declare-fun f64.isint (F64) Bool)
 ; utf8.DecodeRuneInString on window s yields rune r of size sz
 (define-fun decode.post ((s Str) (r Int) (sz Int)) Bool
-  (and (=> (= (str.len s) 0) (and (= sz 0) (= r 65533)))
-       (=> (> (str.len s) 0) (and (<= 1 sz) (<= sz 4) (<= sz (str.len s))))
+  (and (=> (= (gs.len s) 0) (and (= sz 0) (= r 65533)))
+       (=> (> (gs.len s) 0) (and (<= 1 sz) (<= sz 4) (<= sz (gs.len s))))
        (<= 0 r) (<= r 1114111)
-       (=> (and (> (str.len s) 0) (< (str.at s 0) 128)) (and (= sz 1) (= r (str.at s 0))))
-       (=> (and (> (str.len s) 0) (>= (str.at s 0) 128)) (>= r 128))
-       (=> (and (> (str.len s) 0) (isbound (sbase s) (slo s)) (< (ridx (sbase s) (slo s)) (nr (sbase s))))
+       (=> (and (> (gs.len s) 0) (< (gs.at s 0) 128)) (and (= sz 1) (= r (gs.at s 0))))
+       (=> (and (> (gs.len s) 0) (>= (gs.at s 0) 128)) (>= r 128))
+       (=> (and (> (gs.len s) 0) (isbound (sbase s) (slo s)) (< (ridx (sbase s) (slo s)) (nr (sbase s))))
            (and (= (+ (slo s) sz) (roff (sbase s) (+ (ridx (sbase s) (slo s)) 1)))
                 (= r (runit (sbase s) (ridx (sbase s) (slo s))))))))
 ; ---- decimal128 (third-party; uninterpreted, facts are assumptions listed in the evidence) ----
@@ -156,12 +156,12 @@
 (declare-fun dec.real (Dec) Real)
 (define-fun dec.isfin ((d Dec)) Bool (and (not (dec.isnan d)) (not (dec.isinf d))))
 (declare-fun dec.ofuint (Int) Dec) (declare-fun dec.off64 (F64) Dec) (declare-fun dec.off32 (F32) Dec)
-(declare-fun dec.parse (Str) Dec) (declare-fun dec.parseok (Str) Bool)
-(declare-fun dec.unmarshal (Str) Dec) (declare-fun dec.unmarshalok (Str) Bool)
+(declare-fun dec.parse (Int) Dec) (declare-fun dec.parseok (Int) Bool)
+(declare-fun dec.unmarshal (Int) Dec) (declare-fun dec.unmarshalok (Int) Bool)
 (declare-fun dec.int64 (Dec) Int) (declare-fun dec.int64ok (Dec) Bool)
 (declare-fun dec.isintegral (Dec) Bool)
 (declare-fun dec.str (Dec) Str)
-(declare-fun jnum.int64 (Str) Int) (declare-fun jnum.int64ok (Str) Bool) (declare-fun jnum.float64ok (Str) Bool)
+(declare-fun jnum.int64 (Int) Int) (declare-fun jnum.int64ok (Int) Bool) (declare-fun jnum.float64ok (Int) Bool)
 ; @section decfacts dec.ofint dec.cmp dec.equal dec.compare dec.int64 dec.zero dec.ofuint
 (assert (forall ((i Int)) (! (and (dec.isfin (dec.ofint i)) (= (dec.real (dec.ofint i)) (to_real i)) (dec.isintegral (dec.ofint i))) :pattern ((dec.ofint i)))))
 (assert (forall ((i Int)) (! (and (dec.isfin (dec.ofuint i)) (= (dec.real (dec.ofuint i)) (to_real i)) (dec.isintegral (dec.ofuint i))) :pattern ((dec.ofuint i)))))
@@ -179,24 +179,46 @@
 (define-fun cmp.le ((c Int)) Bool (or (= c (- 1)) (= c 0)))
 (define-fun cmp.ge ((c Int)) Bool (or (= c 1) (= c 0)))
 (declare-fun rtype.str (Int) Str)
-(declare-fun str.quote (Str) Str) (declare-fun str.itoa (Int) Str)
+(declare-fun gs.quote (Int) Str) (declare-fun gs.itoa (Int) Str)
 (declare-fun B_len!alias () Int)
-(declare-fun str.index (Int Int) Int) (declare-fun str.lastindex (Int Int) Int)
-(declare-fun str.hasprefix (Int Int) Bool) (declare-fun str.hassuffix (Int Int) Bool)
-(declare-fun str.tolower (Str) Str) (declare-fun str.toupper (Str) Str) (declare-fun str.replace (Str Str Str Int) Str)
-(declare-fun atoi.ok (Str) Bool) (declare-fun atoi.val (Str) Int)
+(declare-fun gs.index (Int Int) Int) (declare-fun gs.lastindex (Int Int) Int)
+(declare-fun gs.hasprefix (Int Int) Bool) (declare-fun gs.hassuffix (Int Int) Bool)
+(declare-fun gs.tolower (Int) Str) (declare-fun gs.toupper (Int) Str) (declare-fun gs.replace (Int Int Int Int) Str)
+(declare-fun atoi.ok (Int) Bool) (declare-fun atoi.val (Int) Int)
 (declare-fun f64.ceil (F64) F64) (declare-fun f64.abs (F64) F64) (declare-fun f64.mod (F64 F64) F64)
-(declare-fun str.units (Str) Int)
-(define-fun str.whole ((s Str)) Bool (and (= (slo s) 0) (= (shi s) (blen (sbase s)))))
-(define-fun str.subwindow ((r Str) (s Str)) Bool (and (= (sbase r) (sbase s)) (<= (slo s) (slo r)) (<= (slo r) (shi r)) (<= (shi r) (shi s))))
+(declare-fun gs.units (Str) Int)
+(define-fun gs.whole ((s Str)) Bool (and (= (slo s) 0) (= (shi s) (blen (sbase s)))))
+(define-fun gs.subwindow ((r Str) (s Str)) Bool (and (= (sbase r) (sbase s)) (<= (slo s) (slo r)) (<= (slo r) (shi r)) (<= (shi r) (shi s))))
 ; utf8.DecodeLastRuneInString (assumption A7: backward and forward segmentation agree)
 (define-fun decode.lastpost ((s Str) (r Int) (sz Int)) Bool
-  (and (=> (= (str.len s) 0) (and (= sz 0) (= r 65533)))
-       (=> (> (str.len s) 0) (and (<= 1 sz) (<= sz 4) (<= sz (str.len s))))
+  (and (=> (= (gs.len s) 0) (and (= sz 0) (= r 65533)))
+       (=> (> (gs.len s) 0) (and (<= 1 sz) (<= sz 4) (<= sz (gs.len s))))
        (<= 0 r) (<= r 1114111)
-       (=> (and (> (str.len s) 0) (isbound (sbase s) (shi s)) (> (ridx (sbase s) (shi s)) 0))
+       (=> (and (> (gs.len s) 0) (isbound (sbase s) (shi s)) (> (ridx (sbase s) (shi s)) 0))
            (and (= (- (shi s) sz) (roff (sbase s) (- (ridx (sbase s) (shi s)) 1)))
                 (= r (runit (sbase s) (- (ridx (sbase s) (shi s)) 1)))))))
-; @section units str.units
-(assert (forall ((s Str)) (! (and (<= 0 (str.units s)) (<= (str.units s) (str.len s)) (=> (str.aligned s) (= (str.units s) (str.runes s)))) :pattern ((str.units s)))))
+; @section units gs.units
+(assert (forall ((s Str)) (! (and (<= 0 (gs.units s)) (<= (gs.units s) (gs.len s)) (=> (gs.aligned s) (= (gs.units s) (gs.runes s)))) :pattern ((gs.units s)))))
+; @section core
+; @section floatfacts f64.lt f64.le f64.eq f64.isint f64.inintrange f32.lt f32.le f32.eq f32.inintrange
+(assert (forall ((a F64) (b F64)) (! (or (f64.lt a b) (f64.lt b a) (f64.eq a b) (f64.isnan a) (f64.isnan b)) :pattern ((f64.lt a b)))))
+(assert (forall ((a F64) (b F64)) (! (= (f64.le a b) (or (f64.lt a b) (f64.eq a b))) :pattern ((f64.le a b)))))
+(assert (forall ((a F64) (b F64)) (! (=> (or (f64.isnan a) (f64.isnan b)) (and (not (f64.eq a b)) (not (f64.lt a b)))) :pattern ((f64.eq a b)))))
+(assert (forall ((a F64) (b F64)) (! (=> (or (f64.isnan a) (f64.isnan b)) (not (f64.lt a b))) :pattern ((f64.lt a b)))))
+(assert (forall ((a F64) (b F64)) (! (=> (f64.lt a b) (and (not (f64.lt b a)) (not (f64.eq a b)))) :pattern ((f64.lt a b)))))
+(assert (forall ((a F64) (b F64)) (! (= (f64.eq a b) (f64.eq b a)) :pattern ((f64.eq a b)))))
+(assert (forall ((a F64)) (! (= (f64.isint a) (f64.eq a (f64.floor a))) :pattern ((f64.floor a)))))
+(assert (forall ((a F64)) (! (=> (f64.isnan a) (f64.isnan (f64.floor a))) :pattern ((f64.floor a)))))
+(assert (forall ((i Int)) (! (not (f64.isnan (f64.ofint i))) :pattern ((f64.ofint i)))))
+(assert (forall ((i Int)) (! (not (f32.isnan (f32.ofint i))) :pattern ((f32.ofint i)))))
+(assert (forall ((a F32) (b F32)) (! (=> (or (f32.isnan a) (f32.isnan b)) (not (f32.eq a b))) :pattern ((f32.eq a b)))))
+(assert (forall ((a F32) (b F32)) (! (= (f32.eq a b) (f32.eq b a)) :pattern ((f32.eq a b)))))
+; 2^63 is the first float value outside the int range (float64(MaxInt) rounds to it); float64(MinInt) is exact
+(assert (forall ((x F64)) (! (= (f64.inintrange x MinInt MaxInt) (and (f64.le (f64.ofint MinInt) x) (f64.lt x (f64.ofint 9223372036854775808)))) :pattern ((f64.inintrange x MinInt MaxInt)))))
+(assert (forall ((a F32) (b F32)) (! (or (f32.lt a b) (f32.lt b a) (f32.eq a b) (f32.isnan a) (f32.isnan b)) :pattern ((f32.lt a b)))))
+(assert (forall ((a F32) (b F32)) (! (= (f32.le a b) (or (f32.lt a b) (f32.eq a b))) :pattern ((f32.le a b)))))
+(assert (forall ((a F32) (b F32)) (! (=> (or (f32.isnan a) (f32.isnan b)) (not (f32.lt a b))) :pattern ((f32.lt a b)))))
+(assert (forall ((a F32) (b F32)) (! (=> (f32.lt a b) (and (not (f32.lt b a)) (not (f32.eq a b)))) :pattern ((f32.lt a b)))))
+(assert (forall ((x F32)) (! (= (f32.inintrange x MinInt MaxInt) (and (f32.le (f32.ofint MinInt) x) (f32.lt x (f32.ofint 9223372036854775808)))) :pattern ((f32.inintrange x MinInt MaxInt)))))
+(assert (forall ((x F32)) (! (= (f64.isnan (f64.of32 x)) (f32.isnan x)) :pattern ((f64.of32 x)))))
 ; @section core
